@@ -365,8 +365,44 @@ PROPS = {
     'C16': {
         'contract_modules': ['c16_network'],
         'functions': ['treadmill.runtime.linux._finish:_cleanup_ephemeral_ports',
-                      'treadmill.runtime.linux._finish:_cleanup_network'],
-        'assumptions': [],
+                      'treadmill.runtime.linux._finish:_cleanup_network',
+                      'treadmill.runtime.linux._run:_unshare_network'],
+        'assumptions': [
+            'TWO CONTRACTS AGAINST ONE SPECIFICATION: reg_rule(app, vip, ext, n) says which rule-file names are "the '
+            'registrations of this manifest" (DNAT and SNAT per endpoint, DNAT per ephemeral tcp / udp port, one '
+            'passthrough rule per resolved passthrough host). _unshare_network: every rule file it changes was free, is '
+            'bound to this container afterwards and is a registration; on normal return every registration is bound to '
+            'this container; an entry owned by somebody else makes it raise (then what was created so far is still only '
+            'registrations). _cleanup_network / _cleanup_ephemeral_ports: every rule file that changes was bound to THIS '
+            'container, is gone afterwards and is a registration (another container\'s entry is never removed); unless the '
+            'network resource was never allocated or is already freed (then nothing changes: repeatable), no registration '
+            'is bound to this container afterwards and the vring / infra ip-set entries of the manifest are gone. '
+            '"As they were" for entries that were free before the start follows from the two contracts (DESIGN 0.70) - '
+            'that composition is a two-line argument, not a machine-checked obligation',
+            'the real RuleMgr.create_rule / unlink_rule are executed (inlined) over the ghost file system of engine_fs '
+            '(symlink / readlink / unlink with errno outcomes); RuleMgr._filenameify is assumed to be a FUNCTION of the '
+            'chain, the rule class and the fields of that class (rfile; that distinct rules get distinct names is C15 and '
+            'is not needed for symmetry); firewall.DNATRule / SNATRule / PassThroughRule objects are built by their real '
+            '__init__ (the three unrelated classes share one set of heap arrays, the class tag tells them apart)',
+            'vip / external ip: the start uses app.network.vip / external_ip, the finish uses what the network service '
+            'returns for the container (net_vip / net_ext of the unique name): the symmetry is for equal values; '
+            'socket.gethostbyname is a FUNCTION of the host name - the FIXME in _cleanup_network says nothing guarantees '
+            'that in reality (a passthrough host resolving differently at finish leaks its rule: not a code defect the '
+            'contracts can see, listed here)',
+            'ip sets live in the file-system ghost as pseudo directories (ipset_dir / ipset_entry: atoms of the set and entry '
+            'texts; assumed different from the rules / owners / endpoints directories); iptables.add_ip_set / rm_ip_set are '
+            'dependency contracts (ipset -exist add / del); entry texts are the same format expressions on both sides. '
+            'Infra entries of endpoints of type infra are removed by the finish loop (rm_ip_set contract) but only the '
+            'ephemeral-port and vring entries are stated as postconditions',
+            'endpoint specs: EndpointsMgr.create_spec / unlink_all are dependency contracts here (nothing outside the '
+            'endpoints directory changes; create_spec / unlink_spec are under contract in ./check C14; unlink_all is a glob '
+            'over spec names and is not) - the spec half of the statement is NOT decided by this check',
+            'the site firewall plugin (apply_exception_rules / cleanup_exception_rules), newnet.create_newnet, '
+            'iptables.flush_cnt_conntrack_table and the network service client are assumed not to touch the registrations '
+            'named here; appcfg.app_unique_name is a function of the manifest; runtime.allocate_network_ports (distinct '
+            'ports, disjoint ranges) is not under contract; interleavings of two containers are covered in the sense that '
+            'every clause is proved for an arbitrary directory content at the start of each call',
+        ],
     },
     'C17': {
         'contract_modules': ['c17_presence'],
